@@ -356,6 +356,15 @@ func opGcsConc(_ *HState, a Event) Event {
 	var key [16]byte
 	items := gItems(a, "items")
 	f, _ := gcs.BuildGCSFilter(19, 784931, key, items)
+	if gBool(a, "malformed") && f != nil {
+		// a filter received from a peer that holds fewer values than its N claims (truncated data, overstated N):
+		// queries may answer anything, but they may not write to the shared filter
+		if raw, err := f.Bytes(); err == nil {
+			if g, err := gcs.FromBytes(f.N()*2+7, 19, 784931, raw[:len(raw)/2]); err == nil {
+				f = g
+			}
+		}
+	}
 	qs := gItems(a, "q")
 	ask := func() []bool {
 		var r []bool
